@@ -324,10 +324,10 @@ def run(R):
             return 'construction raised ' + type(e).__name__ + ': ' + str(e)[:100]
     Pa = 'grammar {p}\nstart = Greeting+\nGreeting = "hello" >> Word\nWord = /[a-z]+/\n'
     Pb = 'grammar {p}\nignore /[ \\t]+/\nstart = Greeting+\nGreeting = "hello" >> Word\nWord = /[a-z]+/\nExtra = "x"\n'
-    Cd = 'grammar {c} extends {p}\nTwo = [Greeting, Greeting]\n'
+    Cd = 'grammar {c} extends {p}\nTwo = [Greeting, Mine]\nMine = "hello" >> Word\n'
     Md = 'grammar {m} extends {p}\nTwo = [Greeting, Greeting]\n'
     Ld = 'grammar {l} extends {m}\nBye = "bye" >> Word\n'
-    EN1, EN2 = [None, 'Greeting', 'Two', 'Word'], [None, 'Greeting', 'Two', 'Bye']
+    EN1, EN2 = [None, 'Greeting', 'Two', 'Word', 'Mine'], [None, 'Greeting', 'Two', 'Bye']
     for rep in range(2):
         tag = f'c18nr{rep}'
         # (1)
